@@ -259,6 +259,30 @@ theorem C04_btls_pending_rings (s : St) (hs : s.state = .ready) (cond : Nat) (hc
 
 end XcmModel.C04btls
 
+/-! ## ux / uxf: every awaited condition is watched on the socket's own descriptor, independently of the others -/
+namespace XcmModel.C04ux
+open XcmModel
+
+/-- `conn_event`: awaiting RECEIVABLE watches the descriptor for input, awaiting SENDABLE watches it for output, and
+awaiting both watches both - neither request displaces the other (so a message arriving while output is blocked by
+back-pressure still wakes the application up) -/
+theorem C04_ux_each_condition_watched (cond : Nat) :
+    (cond &&& Generated.XCM_SO_RECEIVABLE ≠ 0 → Ux.connEvent cond &&& Ux.EPOLLIN ≠ 0) ∧
+    (cond &&& Generated.XCM_SO_SENDABLE ≠ 0 → Ux.connEvent cond &&& Ux.EPOLLOUT ≠ 0) ∧
+    Ux.connEvent (Generated.XCM_SO_RECEIVABLE ||| Generated.XCM_SO_SENDABLE) = Ux.EPOLLIN ||| Ux.EPOLLOUT := by
+  refine ⟨fun h => ?_, fun h => ?_, by decide⟩
+  · unfold Ux.connEvent
+    rw [if_pos h]
+    split <;> simp [Ux.EPOLLIN, Ux.EPOLLOUT]
+  · unfold Ux.connEvent
+    rw [if_pos h]
+    split <;> simp [Ux.EPOLLIN, Ux.EPOLLOUT]
+
+/-- a listening ux/uxf socket awaiting ACCEPTABLE is watched for input -/
+theorem C04_ux_server_watched : Ux.serverEvent Generated.XCM_SO_ACCEPTABLE = Ux.EPOLLIN := by decide
+
+end XcmModel.C04ux
+
 /-! ## the dispatch layer xcm_tp.c: what a socket's fd watches is re-evaluated after every call -/
 namespace XcmModel.C04tp
 open XcmModel XcmModel.Tp
